@@ -19,6 +19,9 @@ impl Direction {
         vertex_id: &VertexId,
         si: &'a SearchInstance,
     ) -> Box<dyn Iterator<Item = &'a EdgeId> + 'a> {
+        #[cfg(all(kani, feature = "verif-step"))]
+        return unsafe { crate::util::verif_hooks::verif_incident_edges(self, vertex_id, si) };
+        #[cfg(not(all(kani, feature = "verif-step")))]
         match self {
             Direction::Forward => si.directed_graph.out_edges_iter(vertex_id),
             Direction::Reverse => si.directed_graph.in_edges_iter(vertex_id),
@@ -46,6 +49,11 @@ impl Direction {
         start_state: &[StateVar],
         si: &SearchInstance,
     ) -> Result<EdgeTraversal, SearchError> {
+        #[cfg(all(kani, feature = "verif-step"))]
+        return unsafe {
+            crate::util::verif_hooks::verif_edge_traversal(self, edge_id, last_edge_id, start_state, si)
+        };
+        #[cfg(not(all(kani, feature = "verif-step")))]
         match self {
             Direction::Forward => {
                 EdgeTraversal::forward_traversal(edge_id, last_edge_id, start_state, si)
